@@ -47,6 +47,11 @@ def cases(draw, npoints=24):
         pts.append({"uP": draw(gens.fl(0.02, 0.98)), "e": gens.rounded(draw(gens.fl(0.01, 0.93)), 9),
                     "omega": gens.rounded(draw(gens.fl(-math.pi, math.pi)), 9), "M0": gens.rounded(draw(gens.fl(-math.pi, math.pi)), 9),
                     "zs": draw(gens.fl(-2, 2)), "x": [gens.rounded(draw(gens.fl(-2.5, 2.5)), 9) for _ in range(nlin)]})
+    if pr["P"]["kind"] == "uniformlog" and draw(st.booleans()):
+        # a sample sitting exactly on a bound of the period prior (clipped or single-precision library values do)
+        pts[0]["uP"] = 0.0
+        if not pr["P"].get("max_unit"):
+            pts[-1]["uP"] = 1.0
     spec["points"] = pts
     spec["P_range_d"] = [lo, hi]
     spec["n_init"] = draw(st.sampled_from([1, 1, 3, 4, 7]))
@@ -86,6 +91,15 @@ def body_factory(ctx):
             with prior.model:
                 init = joker.setup_mcmc(data, js)
         m = prior.model
+        # ---- the caller's data are inputs: building the model must leave them as they were
+        fresh = gens.build_data(spec)
+        pairs = list(zip(data.values(), fresh.values())) if isinstance(data, dict) else (
+            list(zip(data, fresh)) if isinstance(data, (list, tuple)) else [(data, fresh)])
+        for d_used, d_new in pairs:
+            if not (np.array_equal(d_used.rv.value, d_new.rv.value) and np.array_equal(d_used.rv_err.value, d_new.rv_err.value)
+                    and np.array_equal(d_used._t_bmjd, d_new._t_bmjd) and d_used.rv_err.unit == d_new.rv_err.unit):
+                raise Violation("setup_mcmc modified the RVData object it was given (a second model built from it would describe "
+                                "other data)", rv_err_now=d_used.rv_err.value[:6], rv_err_given=d_new.rv_err.value[:6])
         # ---- initial point == chosen sample in the prior's units
         if n_init == 1:
             chosen = 0
@@ -121,6 +135,8 @@ def body_factory(ctx):
             # physical point, in the prior's own units
             if pr["P"]["kind"] == "uniformlog":
                 P_pu = a_pu * (b_pu / a_pu) ** pt_["uP"]
+                if pt_["uP"] == 1.0:
+                    P_pu = b_pu
             else:
                 P_pu = a_pu + (b_pu - a_pu) * pt_["uP"]
             P_d = float(og.conv(P_pu, Ppu, "d"))
@@ -214,6 +230,10 @@ def body_factory(ctx):
                 dens += float(ss.norm.logpdf(x_pu["dv0_%d" % (i + 1)], o["mu"], o["sigma"]))
             consts.append((float(logp_nj) - dens - gauss, abs(float(logp_nj)) + abs(dens) + abs(gauss) + 1, gtol))
         c = np.array([x[0] for x in consts])
+        if not np.all(np.isfinite(c)):
+            j = int(np.where(~np.isfinite(c))[0][0])
+            raise Violation("log-density of the MCMC model is not finite at a point of the prior's (closed) support",
+                            point=spec["points"][j], P_range=[a_pu, b_pu], P_unit=Ppu, value=float(c[j]))
         spread = float(c.max() - c.min())
         allowed = 1e-6 * max(x[1] for x in consts) + 2 * max(x[2] for x in consts)
         if spread > allowed:
